@@ -202,11 +202,11 @@ func (w *world) event(k string) {
 	w.mu.Unlock()
 }
 
-func setGroupEarliest(ctx context.Context, cl *kgo.Client) error {
+func setGroupEarliest(ctx context.Context, cl *kgo.Client, grp string) error {
 	req := kmsg.NewPtrIncrementalAlterConfigsRequest()
 	res := kmsg.NewIncrementalAlterConfigsRequestResource()
 	res.ResourceType = kmsg.ConfigResourceTypeGroupConfig
-	res.ResourceName = group
+	res.ResourceName = grp
 	cfg := kmsg.NewIncrementalAlterConfigsRequestResourceConfig()
 	cfg.Name = "share.auto.offset.reset"
 	cfg.Value = kmsg.StringPtr("earliest")
@@ -380,7 +380,7 @@ func runScenario(pl plan, watchdog time.Duration) (res *result) {
 		inconcl("create topic: " + err.Error())
 		return res
 	}
-	if err := setGroupEarliest(ctx, admin); err != nil {
+	if err := setGroupEarliest(ctx, admin, group); err != nil {
 		inconcl("group config: " + err.Error())
 		return res
 	}
